@@ -19,7 +19,7 @@ def string_is_url(series: pd.Series, state: dict) -> bool:
         return pandas_apply(
             string_to_url(series, state), lambda x: x.netloc and x.scheme
         ).all()
-    except AttributeError:
+    except (AttributeError, ValueError):
         return False
 
 
